@@ -83,7 +83,9 @@ theorem derivedFn_wf (env : Env) (self : Bool) (l : List Ref) (name : Bytes) (v 
   unfold derivedFn at h
   split at h
   · simp only [pure, Except.pure, Except.ok.injEq] at h; subst h; trivial
-  all_goals (simp [throw, throwThe, MonadExceptOf.throw] at h)
+  all_goals first
+    | (simp [throw, throwThe, MonadExceptOf.throw] at h; done)
+    | (split at h <;> simp [throw, throwThe, MonadExceptOf.throw] at h)
 
 theorem derefFn_wf (env : Env) (l : List Ref) (v : Value N) (h : derefFn env l = .ok v) : v.WF := by
   unfold derefFn at h
@@ -95,6 +97,32 @@ theorem derefFn_wf (env : Env) (l : List Ref) (v : Value N) (h : derefFn env l =
       · simp [throw, throwThe, MonadExceptOf.throw] at h
       · simp only [pure, Except.pure, Except.ok.injEq] at h; subst h; exact env.norm_isNodeSet _
 
+theorem instTarget_isNodeSet (env : Env) (x : Ref) (ts : List Ref) (h : env.instTarget x = some ts) : IsNodeSet ts := by
+  unfold Env.instTarget at h
+  split at h
+  · split at h
+    · simp only [Option.some.injEq] at h; subst h
+      exact List.Pairwise.sublist (List.take_sublist _ _) (env.norm_isNodeSet _)
+    · cases h
+  · cases h
+
+theorem derefAny_wf (env : Env) (l : List Ref) (v : Value N) (h : derefAny env l = .ok v) : v.WF := by
+  cases l with
+  | nil => simp only [derefAny, pure, Except.pure, Except.ok.injEq] at h; subst h; exact List.Pairwise.nil
+  | cons x rest =>
+    simp only [derefAny] at h
+    cases hl : env.leafrefTargets x with
+    | some ts => rw [hl] at h; exact derefFn_wf _ _ _ h
+    | none =>
+      rw [hl] at h; simp only at h
+      cases hi : env.instTarget x with
+      | none => rw [hi] at h; simp only [pure, Except.pure, Except.ok.injEq] at h; subst h; exact List.Pairwise.nil
+      | some ts =>
+        rw [hi] at h; simp only at h
+        split at h
+        · simp [throw, throwThe, MonadExceptOf.throw] at h
+        · simp only [pure, Except.pure, Except.ok.injEq] at h; subst h; exact instTarget_isNodeSet env x ts hi
+
 theorem callYang_wf (env : Env) (f : String) (args : List (Value N)) (r : Except Err (Value N)) (v : Value N)
     (h : callYang env f args = some r) (hv : r = .ok v) : v.WF := by
   unfold callYang at h
@@ -103,7 +131,7 @@ theorem callYang_wf (env : Env) (f : String) (args : List (Value N)) (r : Except
     | (simp only [Option.some.injEq] at h; subst h
        first
         | exact derivedFn_wf _ _ _ _ _ hv
-        | exact derefFn_wf _ _ _ hv
+        | exact derefAny_wf _ _ _ hv
         | (simp [throw, throwThe, MonadExceptOf.throw] at hv; done)
         | (simp only [pure, Except.pure, Except.ok.injEq] at hv; subst hv; trivial)
         | (split at hv
